@@ -177,7 +177,7 @@ func c08MakeCase(idx int) c08Case {
 		// long executing histories: several epochs, so that nodes leave and are invited back
 		c.Steps = rng.Range(25, 45)
 	}
-	if idx%25 == 7 {
+	if idx%20 == 7 {
 		c.Family = "left"
 		c.N0 = rng.Range(3, 4)
 		c.Exec = true
@@ -908,7 +908,17 @@ func (h *c08H) baseTerms(v c08View) (terms *pdkg.ProposalTerms, leader *vfdNode,
 var c08PacketClasses = []string{"stale-epoch", "stale-epoch-minus-one", "nil-terms", "empty-terms", "expired-timeout",
 	"threshold-below-minimum", "threshold-above-n", "member-dropped", "genesis-time-changed", "genesis-seed-changed",
 	"unknown-scheme", "leader-not-remaining", "leader-leaving", "leader-joining", "foreign-beacon-id-in-terms",
-	"foreign-beacon-id-in-metadata", "well-formed"}
+	"foreign-beacon-id-in-metadata", "well-formed",
+	"changed-beacon-period", "changed-beacon-period-as-leaver", "changed-scheme", "changed-scheme-as-leaver",
+	"changed-beacon-period", "changed-scheme"}
+
+func vfdShuffledStrings(rng *vfRng, l []string) []string {
+	out := make([]string, len(l))
+	for i, j := range rng.Perm(len(l)) {
+		out[i] = l[j]
+	}
+	return out
+}
 
 func c08RemoveAddr(l []*pdkg.Participant, addr string) []*pdkg.Participant {
 	var out []*pdkg.Participant
@@ -994,6 +1004,35 @@ func (h *c08H) forgedProposal(T *vfdNode, class string) bool {
 		}
 		terms.Remaining = c08RemoveAddr(terms.Remaining, leader.addr)
 		terms.Joining = []*pdkg.Participant{proto.Clone(leader.part).(*pdkg.Participant)}
+	case "changed-beacon-period", "changed-beacon-period-as-leaver", "changed-scheme", "changed-scheme-as-leaver":
+		// the chain's period and scheme are fixed at genesis like its genesis time and seed; T is a member of the
+		// current group (remaining, or leaving in the -as-leaver variants) and holds the real values
+		if !hasFin {
+			return false
+		}
+		if strings.HasSuffix(class, "-as-leaver") {
+			if len(members) < 3 || int(v.fin.Threshold) > len(members)-1 {
+				return false
+			}
+			terms.Remaining = c08RemoveAddr(terms.Remaining, T.addr)
+			terms.Leaving = []*pdkg.Participant{proto.Clone(T.part).(*pdkg.Participant)}
+			if int(terms.Threshold) < (len(members)-1)/2+1 {
+				terms.Threshold = uint32((len(members)-1)/2 + 1)
+			}
+			if int(terms.Threshold) > len(members)-1 {
+				terms.Threshold = uint32(len(members) - 1)
+			}
+		}
+		if strings.HasPrefix(class, "changed-beacon-period") {
+			terms.BeaconPeriodSeconds += uint32(h.rng.Range(1, 30))
+		} else {
+			for _, id := range vfdShuffledStrings(h.rng, crypto.ListSchemes()) {
+				if id != v.fin.SchemeID {
+					terms.SchemeID = id
+					break
+				}
+			}
+		}
 	case "foreign-beacon-id-in-terms":
 		terms.BeaconID = "vf-some-other-beacon"
 	case "foreign-beacon-id-in-metadata":
